@@ -34,10 +34,16 @@ package reorgdetector
 //@   trusted
 //@   modifies nothing
 //@   ensures forall(k, 0, len(result) - 1, result[k].Num < result[k+1].Num)
+// (block numbers stay far below 2^64: machine arithmetic, listed)
+//@   ensures forall(k, 0, len(result), result[k].Num < 9223372036854775808)
 
+// dropping a range from the in-memory list: exactly the numbers from..to go, every other entry stays as it was
 //@ func (hl *headersList) removeRange
-//@   trusted
-//@   modifies nothing
+//@   props C06
+//@   requires hl != nil && to < 18446744073709551615
+//@   modifies region("map[uint64]reorgdetector.header.has")
+//@   ensures[exactly-that-range-dropped] forall(n, int, has(hl.headers, n) == (old(has(hl.headers, n)) && !(from <= n && n <= to)))
+//@   loop 0 invariant hl != nil && from <= i && (from <= to ==> i <= to + 1) && (from > to ==> i == from) && hl.headers == old(hl.headers) && forall(n, int, has(hl.headers, n) == (old(has(hl.headers, n)) && !(from <= n && n < i)))
 
 // the hash of a header object as go-ethereum computes it (a function of the object; assumed, A4)
 //@ spec fn hdrHashOf(h *types.Header) Hash
@@ -57,6 +63,8 @@ package reorgdetector
 //@   props C06
 //@   requires rd != nil && rd.client != nil && rd.log != nil && hdrs != nil && lastFinalisedBlock != nil && lastFinalisedBlock.Number != nil && 0 <= bigval(lastFinalisedBlock.Number) && bigval(lastFinalisedBlock.Number) < 18446744073709551616
 //@   requires notifyCalls == 0 && headersCache != nil
+// (mentions the in-memory list's presence map before the loop, so that the loop frame knows the region removeRange writes)
+//@   requires hdrs.headers != nil && (has(hdrs.headers, 0) || !has(hdrs.headers, 0))
 //@   requires forall(n, int, headersCache[n] != nil ==> headersCache[n] == chainHdrAt(n))
 //@   modifies heap, notifyCalls, lastNotified, lastDropFrom, lastDropTo, dropCalls, passHdrs, passLen
 // detection proper: a subscriber is notified exactly for a tracked block whose stored hash differs from the hash of
@@ -70,6 +78,7 @@ package reorgdetector
 //@   ensures[a-clean-pass-compared-every-tracked-block] (result == nil && notifyCalls == 0) ==> forall(k, 0, passLen, passHdrs[k].Hash == hdrHashOf(chainHdrAt(passHdrs[k].Num)))
 //@   ensures[reorg-means-rewind-to-first-mismatch-then-drop] notifyCalls == 1 ==> (result == nil ==> lastDropFrom == lastNotified)
 //@   loop 0 invariant forall(n, int, headersCache[n] != nil ==> headersCache[n] == chainHdrAt(n))
+//@   loop 0 modifies region("map[uint64]reorgdetector.header.has")
 //@   loop 0 invariant 0 <= rangeindex + 1 && rangeindex + 1 <= len(headers) && forall(k, 0, rangeindex + 1, headers[k].Hash == hdrHashOf(chainHdrAt(headers[k].Num)))
 //@   loop 0 invariant notifyCalls == 0 && headersCache != nil && rd != nil && rd.client != nil && rd.log != nil && hdrs != nil && lastFinalisedBlock != nil && lastFinalisedBlock.Number != nil
 
